@@ -46,6 +46,10 @@ def facts_dir(features="", repo=REPO):
     d = os.path.join(base, hh + ("-" + features if features else ""))
     ok = os.path.join(d, ".complete")
     if os.path.exists(ok):
+        try:
+            os.utime(d, None)       # mark as recently used (pruning spares recent entries)
+        except OSError:
+            pass
         return d, True
     lock = open(os.path.join(base, ".lock"), "w")
     fcntl.flock(lock, fcntl.LOCK_EX)
@@ -58,16 +62,19 @@ def facts_dir(features="", repo=REPO):
         r = subprocess.run([os.path.join(VERIF, "tools", "extract.sh"), repo, tmp, features],
                            stdout=subprocess.PIPE, stderr=subprocess.STDOUT, text=True)
         if r.returncode != 0:
-            sys.stderr.write(r.stdout)
+            subprocess.run(["rm", "-rf", tmp])
             raise ExtractionFailed(r.stdout[-2000:])
         subprocess.run(["rm", "-rf", d])
         os.rename(tmp, d)
         open(ok, "w").write("%.1f" % (time.time() - t0))
-        # keep the cache small: drop all but the 6 newest entries
+        # keep the cache small: drop entries unused for an hour beyond the 8 newest (another check
+        # process may be reading a recent one)
+        now = time.time()
         ents = sorted((e for e in os.listdir(base) if not e.startswith(".")),
                       key=lambda e: os.path.getmtime(os.path.join(base, e)))
-        for e in ents[:-6]:
-            subprocess.run(["rm", "-rf", os.path.join(base, e)])
+        for e in ents[:-8]:
+            if now - os.path.getmtime(os.path.join(base, e)) > 3600:
+                subprocess.run(["rm", "-rf", os.path.join(base, e)])
         return d, False
     finally:
         fcntl.flock(lock, fcntl.LOCK_UN)
@@ -522,6 +529,8 @@ class Program:
             p = os.path.join(fdir, extra + ".jsonl")
             if os.path.exists(p):
                 self._load(p, extra, extra + "::")
+            elif extra == "axmos_server":
+                raise ExtractionFailed("facts of the server binary are missing in %s" % fdir)
         self._resolve_named_consts()
         self._callers = None
         self._edges = None
